@@ -79,7 +79,6 @@ func replayMain(propID, path string) int {
 	}
 	w := &W{Prop: propID, Tier: rep.Tier, Seed: rep.Seed, NSlices: 1, hashes: map[uint64]struct{}{}, maxSamp: 3, out: os.DevNull}
 	w.Res.Stats = map[string]int64{}
-	os.Setenv("VERIF_REPLAY", "1")
 	if p.Init != nil {
 		p.Init(w, inner.Phase)
 	}
